@@ -53,9 +53,11 @@ def no_change(score_new_list, early_stopping):
     if "tol_rel" in early_stopping and early_stopping["tol_rel"] is not None:
         tol_rel = early_stopping["tol_rel"]
 
-        percent_imp = ((max_score - max_first_n) / abs(max_first_n)) * 100
-        if percent_imp < tol_rel:
-            return True
+        # an improvement over a zero baseline is never "less than x percent of it"
+        if max_first_n != 0:
+            percent_imp = ((max_score - max_first_n) / abs(max_first_n)) * 100
+            if percent_imp < tol_rel:
+                return True
 
 
 class StopRun:
